@@ -49,6 +49,8 @@ mod movekern;
 mod prog;
 #[path = "../c03_loadkern.rs"]
 mod loadkern;
+#[path = "../c03_ctl.rs"]
+mod ctl;
 
 extern "C" {
     fn FT_MulFix(a: c_long, b: c_long) -> c_long;
@@ -578,6 +580,7 @@ fn run(cfg: &Config, s: &mut Session) {
         Ok("movekern") => return movekern::run(cfg, s),
         Ok("prog") => return prog::run(cfg, s),
         Ok("loadkern") => return loadkern::run(cfg, s),
+        Ok("ctl") => return ctl::run(cfg, s),
         _ => {}
     }
     kernels(cfg, s);
@@ -586,6 +589,7 @@ fn run(cfg: &Config, s: &mut Session) {
     movekern::run(cfg, s);
     prog::run(cfg, s);
     loadkern::run(cfg, s);
+    ctl::run(cfg, s);
     synth::run(cfg, s);
     ttfuzz::run(cfg, s);
     ttedge::run(cfg, s);
